@@ -189,6 +189,15 @@ func (g *Gen) call(in ssa.Instruction, c *ssa.CallCommon, rt types.Type) Val {
 	if key == "errors.As" && len(c.Args) == 2 {
 		// errors.As(err, &target): the result is unconstrained; when it is true the target holds some value
 		res := g.havocVal(rt, "ret.errors.As")
+		if _, hasSpec := g.E.contracts.Specs["errAsCode"]; hasSpec {
+			// the answer is a function of the error (spec/stdlib.contracts: errAsCode), and a nil error has no chain
+			if e, err := ParseExpr("result == errAsCode(err) && (err == nil ==> !result)"); err == nil {
+				env := &Env{vars: map[string]Val{"err": args[0], "result": res}, st: g.cur, old: g.cur, pkg: g.pkgOfKey(g.key)}
+				if s, err := g.evalBool(env, e); err == nil {
+					g.assume(s)
+				}
+			}
+		}
 		if mi, ok := c.Args[1].(*ssa.MakeInterface); ok {
 			if tv, ok := g.vals[mi.X]; ok && tv.Addr == nil {
 				if p, ok := mi.X.Type().Underlying().(*types.Pointer); ok {
